@@ -1,5 +1,7 @@
 """C15 — copy, freeze and thaw have value semantics."""
 from .. import metas, msgs
+from .C03 import SX, _real
+from .. import envprobe
 from ..common import chunks, exc_name, generic_replay, pool_map
 
 RULE = ('op sequences (<= 20 ops) over a pool of live Message / MetaMessage / UnknownMetaMessage objects and their frozen '
@@ -68,7 +70,7 @@ def run_history(ops):
                 out = 'ref %d' % (len(pool) - 1)
             elif k == 'copy':
                 src = pool[op[1]]
-                kw = dict(op[3])
+                kw = {n_: _real(v_) for n_, v_ in op[3]}
                 if op[2] is not None:
                     kw['type'] = op[2]
                 c = src.copy(**kw)
@@ -307,6 +309,8 @@ def _good_msg(rng, name):
     if name == 'data':
         return tuple(rng.randint(0, 127) for _ in range(rng.randint(0, 3)))
     lo, hi = msgs.RANGES[name]
+    if lo < 0 and rng.random() < 0.5:
+        return rng.choice([-1, -2])          # the one pair of valid values with equal hashes (hash(-1) == hash(-2))
     return rng.randint(lo, hi)
 
 
@@ -316,7 +320,9 @@ def _overrides(rng, fam, t, one=False):
         names = list(msgs.TYPES[t][1]) + ['time']
         for name in rng.sample(names, 1 if one else min(len(names), rng.randint(1, 2))):
             if name == 'time':
-                kw.append(('time', rng.choice([0, 7, 2.5, 'x', None])))
+                kw.append(('time', rng.choice([0, 7, 2.5, 'x', None, -1, -2, -1, -2])))
+            elif name == 'data' and rng.random() < 0.25:
+                kw.append((name, rng.choice([SX((1, 2)), SX((1, 200)), SX((7, 1.5)), SX(())])))
             elif rng.random() < 0.25:
                 kw.append((name, rng.choice([-1, 200, 2 ** 20, 1.5, 'x', None, [1], 5 if name == 'data' else (1,)])))
             else:
@@ -379,11 +385,14 @@ def run(ck):
             impl.append(lines[2 * j + 1])
     ck.sample({'ops': repr(hs[3])})
     ck.compare('heap', reqs, impl, ck.driver.run(reqs))
+    envprobe.check(ck, ['frozen'])
     return ck.finish(RULE, assumptions=['"assigning attributes" is setattr of existing attribute names; in-place mutation of a list the caller handed in is not an assignment',
                                         'hash values are compared through the sorted item list they are computed from'])
 
 
 def oracle(case):
+    if 'environment' in case:
+        return envprobe.oracle(case)
     return run_history(eval(case['ops']))[1]
 
 
